@@ -31,6 +31,7 @@ type Ctx struct {
 	Budget time.Duration // wall-clock budget for the exploration part
 
 	Findings []*Finding
+	nMinimized int
 	Ev       *Evidence
 	infra    []string // infrastructure problems (exit 2)
 }
@@ -46,6 +47,21 @@ func (c *Ctx) Logf(format string, args ...interface{}) {
 }
 
 func (c *Ctx) TimeLeft() time.Duration { return c.Budget - time.Since(c.Start) }
+
+// mayMinimize bounds the (serial) minimisation effort of one check: at most 8
+// findings are shrunk, and none once the exploration budget plus a grace period is
+// spent; the others are reported with the spec that exposed them.
+func (c *Ctx) mayMinimize() bool {
+	grace := 2 * time.Minute
+	if c.Tier == "thorough" {
+		grace = 15 * time.Minute
+	}
+	if c.nMinimized >= 8 || time.Since(c.Start) > c.Budget+grace {
+		return false
+	}
+	c.nMinimized++
+	return true
+}
 
 func usage() {
 	fmt.Fprintln(os.Stderr, `usage:
